@@ -98,25 +98,82 @@ def _limits():
     resource.setrlimit(resource.RLIMIT_AS, (lim, lim))
 
 
-def run_cmd(cmd, cwd, timeout, logfile, env=None, limit=True):
+def group_rss_mb(pgid):
+    """Resident memory of a process group (the cargo-kani -> kani-driver -> cbmc tree), in MB."""
+    total = 0
+    for pid in os.listdir("/proc"):
+        if not pid.isdigit():
+            continue
+        try:
+            with open("/proc/%s/stat" % pid) as f:
+                st = f.read()
+            fields = st[st.rindex(")") + 2:].split()
+            if int(fields[2]) != pgid:
+                continue
+            with open("/proc/%s/statm" % pid) as f:
+                total += int(f.read().split()[1]) * 4096
+        except (OSError, ValueError, IndexError):
+            continue
+    return total // (1 << 20)
+
+
+def mem_available_mb():
+    try:
+        for line in open("/proc/meminfo"):
+            if line.startswith("MemAvailable:"):
+                return int(line.split()[1]) // 1024
+    except OSError:
+        pass
+    return 1 << 30
+
+
+def run_cmd(cmd, cwd, timeout, logfile, env=None, limit=True, mem_cap_mb=None):
+    """Run with a wall-clock cap and a resident-memory cap (this box has no swap: a CBMC run that is
+    going to need > 10 GB never finishes in reach and endangers the other runs). Returns
+    (rc, why_killed or None, wall, peak_rss_mb)."""
     t0 = time.time()
+    peak, why = 0, None
     with open(logfile, "w") as lf:
         p = subprocess.Popen(cmd, cwd=cwd, stdout=lf, stderr=subprocess.STDOUT, env=env or ENV,
                              preexec_fn=_limits if limit else os.setsid)
-        try:
-            rc = p.wait(timeout=timeout)
-            timed_out = False
-        except subprocess.TimeoutExpired:
+        while True:
             try:
-                os.killpg(p.pid, signal.SIGKILL)
-            except ProcessLookupError:
+                rc = p.wait(timeout=3)
+                break
+            except subprocess.TimeoutExpired:
                 pass
-            p.wait()
-            rc, timed_out = -9, True
-    return rc, timed_out, time.time() - t0
+            rss = group_rss_mb(p.pid)
+            peak = max(peak, rss)
+            if time.time() - t0 > timeout:
+                why = "wall-clock cap of %ds reached" % timeout
+            elif mem_cap_mb and rss > mem_cap_mb:
+                why = "memory cap of %d MB exceeded (%d MB resident)" % (mem_cap_mb, rss)
+            elif rss > 3000 and mem_available_mb() < 4000:
+                why = "machine ran short of memory (%d MB resident here)" % rss
+            if why:
+                try:
+                    os.killpg(p.pid, signal.SIGKILL)
+                except ProcessLookupError:
+                    pass
+                p.wait()
+                rc = -9
+                break
+    return rc, why, time.time() - t0, peak
 
 
-CHECK_RE = re.compile(r"^Check (\d+): (\S+)\n\t - Status: (\w+)\n\t - Description: \"(.*?)\"\n\t - Location: ([^\n]*)$", re.M | re.S)
+CHECK_BLOCK_RE = re.compile(r"^Check (\d+): ([^\n]+)\n(.*?)(?=^Check \d+: |^SUMMARY:|\Z)", re.M | re.S)
+
+
+def iter_checks(text):
+    for m in CHECK_BLOCK_RE.finditer(text):
+        num, name, body = m.groups()
+        st = re.search(r"- Status: (\w+)", body)
+        de = re.search(r"- Description: \"(.*?)\"\s*(?:\n\t - Location: ([^\n]*))?\s*\Z", body, re.S)
+        if not st:
+            continue
+        desc = de.group(1) if de else ""
+        loc = (de.group(2) or "") if de else ""
+        yield num, name, st.group(1), desc, loc
 
 
 def norm_desc(d):
@@ -151,8 +208,7 @@ def parse_kani_log(text, allowed_fail=None):
         res["covers_sat"], res["covers_total"] = int(m.group(1)), int(m.group(2))
     res["cover_unsat"] = []
     failed = []
-    for m in CHECK_RE.finditer(text):
-        num, name, status, desc, loc = m.groups()
+    for num, name, status, desc, loc in iter_checks(text):
         desc = norm_desc(desc)
         if status == "FAILURE":
             failed.append({"check": name, "description": desc, "location": loc.strip()})
@@ -205,12 +261,13 @@ def run_harness(work, crate, harness, widx, tier):
     seed_worker(tdir)
     logfile = os.path.join(work, "logs", harness.name + ".log")
     timeout = harness.timeout_thorough if tier == "thorough" else harness.timeout
-    rc, timed_out, wall = run_cmd(kani_cmd(harness, tdir), crate, timeout, logfile)
+    cap = (harness.mem_gb_thorough if tier == "thorough" else harness.mem_gb) * 1024
+    rc, killed, wall, peak = run_cmd(kani_cmd(harness, tdir), crate, timeout, logfile, mem_cap_mb=cap)
     text = open(logfile, errors="replace").read()
     res = parse_kani_log(text, harness.allowed_fail)
-    res.update(name=harness.name, wall_s=round(wall, 1), rc=rc, expect=harness.expect, tdir=tdir, logfile=logfile)
-    if timed_out:
-        res["status"], res["reason"] = "inconclusive", "wall-clock cap of %ds reached" % timeout
+    res.update(name=harness.name, wall_s=round(wall, 1), rc=rc, expect=harness.expect, tdir=tdir, logfile=logfile, peak_rss_mb=peak)
+    if killed:
+        res["status"], res["reason"] = "inconclusive", killed
     elif res["status"] == "inconclusive" and not res["reason"]:
         res["reason"] = "exit status %d" % rc
     return res
@@ -225,7 +282,7 @@ PLAYBACK_FOR_RE = re.compile(r"/// Check for `[^`]*`: (.*?)\n///\n", re.S)
 
 def obtain_playback(work, crate, harness, res):
     logfile = os.path.join(work, "logs", harness.name + ".playback.log")
-    rc, timed_out, wall = run_cmd(kani_cmd(harness, res["tdir"], playback=True), crate, harness.timeout_thorough, logfile)
+    rc, killed, wall, _ = run_cmd(kani_cmd(harness, res["tdir"], playback=True), crate, harness.timeout_thorough, logfile, mem_cap_mb=16384)
     text = open(logfile, errors="replace").read()
     tests = {}
     for m in PLAYBACK_RE.finditer(text):
@@ -253,7 +310,7 @@ def native_replay(work, harness, test_src, release=False):
         cmd += ["--release"]
     cmd += ["--", tname, "--exact", "--test-threads", "1"]
     cmd = [c for c in cmd if c != "--exact"]  # test names are unique prefixes already
-    rc, timed_out, wall = run_cmd(cmd, rcrate, 1800, logfile, env=env, limit=False)
+    rc, killed, wall, _ = run_cmd(cmd, rcrate, 1800, logfile, env=env, limit=False)
     text = open(logfile, errors="replace").read()
     ran = re.search(r"test result: (\w+)\. (\d+) passed; (\d+) failed", text)
     if not ran:
@@ -315,7 +372,7 @@ def write_evidence(prop, tier, seed, results, wall, violations, notes, harnesses
                     "cbmc_checks": r["checks_total"], "failed": r["checks_failed"], "unreachable": r["unreachable"],
                     "covers": "%d/%d" % (r["covers_sat"], r["covers_total"]),
                     "verification_s": r["verif_time"], "solver_s": round(r["solver_s"], 2), "wall_s": r["wall_s"],
-                    "sat_vars": r["sat_vars"], "sat_clauses": r["sat_clauses"], "stubs": r["stubs"],
+                    "sat_vars": r["sat_vars"], "sat_clauses": r["sat_clauses"], "stubs": r["stubs"], "peak_rss_mb": r.get("peak_rss_mb"),
                     "unwind": harnesses[r["name"]].unwind, "bounds": harnesses[r["name"]].bounds,
                     "functions": harnesses[r["name"]].functions,
                 } for r in results
@@ -481,7 +538,7 @@ def setup():
         crate = make_crate(work)
         h = [x for x in registry.all_harnesses() if x.name == "c03_encode_length_kernel"][0]
         tdir = os.path.join(work, "t0")
-        rc, to, wall = run_cmd(kani_cmd(h, tdir), crate, 1800, os.path.join(work, "logs", "setup.log"))
+        rc, to, wall, _ = run_cmd(kani_cmd(h, tdir), crate, 1800, os.path.join(work, "logs", "setup.log"))
         text = open(os.path.join(work, "logs", "setup.log"), errors="replace").read()
         if "VERIFICATION:-" not in text:
             log(text[-3000:])
